@@ -198,6 +198,11 @@ def check_tree_case(rec, case):
     ivs = [[to_typ(a, typ), to_typ(b, typ)] for a, b in case["intervals"]]
     qs = [[to_typ(a, typ), to_typ(b, typ)] for a, b in case["queries"]]
     pts = [to_typ(p, typ) for p in case["points"]]
+    if typ == "int" and case.get("fractional_queries"):
+        # mixed numeric types: integer intervals stored, queries / points with fractional parts
+        qs = [[a + 0.5, b + 0.5] if i % 2 else [a - 0.75, a - 0.25] for i, (a, b) in enumerate(qs)]
+        pts = [p_ + 0.5 for p_ in pts]
+        rec.count("tree.fractional_queries_on_integer_tree")
     container = case.get("container", "list")
     import numpy as np
     stored = ivs
@@ -308,6 +313,8 @@ def gen_tree_case(rng):
         "container": rng.choice(["list", "array", "tuples"]),
         "in_tuple": rng.random() < 0.5,
     }
+    if typ == "int" and rng.random() < 0.4:
+        case["fractional_queries"] = True
     if typ == "datetime":
         case["points"] = [int(p) for p in case["points"]]
     return case
@@ -356,9 +363,10 @@ def static_partner_case(rec, rng):
             prim.append((name, t0, t1))
         open(base + "/static/mask.dat", "w").write("m")
         fs1 = FileSet(path=tmpl, name="prim")
-        for how in ("static", "eight-centuries"):
-            kw = {} if how == "static" else {
-                "time_coverage": (dt.datetime(1600, 1, 1), dt.datetime(2400, 1, 1))}
+        for how in ("static", "eight-centuries", "finite"):
+            cov = {"static": None, "eight-centuries": (dt.datetime(1600, 1, 1), dt.datetime(2400, 1, 1)),
+                   "finite": (t + dt.timedelta(minutes=40), t + dt.timedelta(minutes=75))}[how]
+            kw = {} if cov is None else {"time_coverage": cov}
             fs2 = FileSet(path=base + "/static/mask.dat", name="static", **kw)
             start = t - dt.timedelta(hours=1)
             end = t + dt.timedelta(hours=12)
@@ -376,8 +384,13 @@ def static_partner_case(rec, rng):
                     rec.violation("match-exception", case, {"exception": repr(exc),
                                                             "trace": traceback.format_exc()[-900:]})
                     continue
-                want = [(os.path.basename(n), ["mask.dat"]) for n, a, b in sorted(prim, key=lambda z: (z[1], z[2]))]
-                wback = [("mask.dat", sorted(os.path.basename(n) for n, a, b in prim))]
+                # the statement: the partner's coverage, widened by max_interval on both sides, intersects
+                # the primary's own coverage
+                w = dt.timedelta(0) if mi is None else dt.timedelta(minutes=10)
+                c0, c1 = cov if cov is not None else (dt.datetime.min + w, dt.datetime.max - w)
+                hit = [(n, a, b) for n, a, b in prim if a <= c1 + w and b >= c0 - w]
+                want = [(os.path.basename(n), ["mask.dat"]) for n, a, b in sorted(hit, key=lambda z: (z[1], z[2]))]
+                wback = [("mask.dat", sorted(os.path.basename(n) for n, a, b in hit))] if hit else []
                 if got != want or back != wback:
                     rec.violation("match-wrong-answer", case, {"got": got[:4], "want": want[:4],
                                                                "other_direction": back[:2],
